@@ -490,3 +490,27 @@ Print Assumptions C01_tls12_chacha_connection.
 Print Assumptions C01_rc4_connection.
 Print Assumptions C01_cbc_explicit_connection.
 Print Assumptions C01_cbc_chained_connection.
+
+(* TLS 1.3 from the ServerHello record: the session reads the ServerHello (supported_versions selects TLS 1.3), derives the keys and
+   then -- C01_tls13_connection -- the server's and the client's encrypted flights cut into records at any bytes and any application
+   history are exported exactly.  Not covered: the optional dummy ChangeCipherSpec records of middlebox compatibility (they only set
+   flags that the TLS 1.3 path never reads; the check's reference sender sends them). *)
+Theorem C01_tls13_connection_from_server_hello : forall C, CryptoLaws C -> forall tbl parts keylog
+  s r hv random sid suite es cs a kl k x xs chk chi shk shi cak cai sak sai version
+  pre_s fb_s pre_c fb_c ps_s ps_c evs st_c st_s stc0 sts0 stN_s rs_s stN_c rs_c stc' sts' rs,
+  hello_premises s r hv random sid suite es [] TLS13 [] [] [] -> ts_hs_client s = [] -> ts_hs_server s = [] ->
+  SuiteParser.split_cipher_suite tbl parts (from_be suite) = Some cs -> algo_of cs = Some a -> (a = AESGCM \/ a = AESCCM \/ a = ChaCha20Poly1305) ->
+  s_keylen cs = Some kl -> find_session_secrets keylog s = x :: xs -> dev_tls_13_keys C (x :: xs) kl (s_mac cs) = Ok k ->
+  client_hs_key k = Some chk -> client_hs_iv k = Some chi -> server_hs_key k = Some shk -> server_hs_iv k = Some shi ->
+  client_app_key k = Some cak -> client_app_iv k = Some cai -> server_app_key k = Some sak -> server_app_iv k = Some sai ->
+  8 <= len cai -> 8 <= len sai -> 8 <= len chi -> 8 <= len shi -> len version = 2 -> 0 <= s_tag cs ->
+  ss_seq st_s = 0 -> ss_seq st_c = 0 -> Z.of_nat (length ps_s) <= 2 ^ 64 -> Z.of_nat (length ps_c) <= 2 ^ 64 ->
+  Forall wfm pre_s -> Forall (fun m => fst m <> 20) pre_s -> wfm (20, fb_s) -> Forall (piece_ok (s_tag cs)) ps_s -> ps_s <> [] -> concat (map fst ps_s) = stream (pre_s ++ [(20, fb_s)]) ->
+  Forall wfm pre_c -> Forall (fun m => fst m <> 20) pre_c -> wfm (20, fb_c) -> Forall (piece_ok (s_tag cs)) ps_c -> ps_c <> [] -> concat (map fst ps_c) = stream (pre_c ++ [(20, fb_c)]) ->
+  send_pieces C a version (s_tag cs) shk shi st_s ps_s = Ok (stN_s, rs_s) -> send_pieces C a version (s_tag cs) chk chi st_c ps_c = Ok (stN_c, rs_c) ->
+  ss_seq stc0 = 0 -> ss_seq sts0 = 0 -> Z.of_nat (length evs) <= 2 ^ 64 -> Forall (ev_ok (s_tag cs)) evs ->
+  play C a cak cai sak sai version (s_tag cs) stc0 sts0 evs = Ok (stc', sts', rs) ->
+  exists s' out, session_run C tbl parts keylog s ((true, r) :: [] ++ (map (pair true) rs_s ++ map (pair false) rs_c ++ rs)) = Ok (s', out) /\
+                 data_entries out = map (fun e : ev => let '(srv, c, _) := e in (srv, Some c, false)) evs.
+Proof. exact tls13_connection_sh. Qed.
+Print Assumptions C01_tls13_connection_from_server_hello.
